@@ -8,8 +8,12 @@
    with arbitrary ticks, status / channel updates) from the initial world [w0] under the schedule
    [sched] -- ANY list of task ids, i.e. any interleaving at the granularity of single actor
    messages and single file-system syscalls, of any length (a shorter schedule = a crash point).
-   [v] selects the code variant: [current_code] = the pinned tree, [repaired_code] = with
-   patches/fix-C16-atomic-tick.diff and patches/fix-C16-zero-tick-not-finished.diff. *)
+   [repaired_code] is the code as it is now (/repo e68ce38 atomic tick, b4d0508 zero tick never
+   finished, 3666d88 writers of status.tag.tmp serialized): the main theorems are about it, at full
+   strength, and the check compares the code with exactly this model.  [original_code] is the tree
+   before those three repairs; the refutations F10 / F12 / F11 of the full statements for it, and the
+   partial statements that did hold for it, are kept below as documented lemmas.  Theorems quantified
+   over [v] hold for every variant. *)
 From Coq Require Import List NArith ZArith.
 Import ListNotations.
 From GPA Require Import Provision SchedProofs ProvisionProofs.
@@ -72,29 +76,61 @@ Proof. exact error_text_exact. Qed.
 Print Assumptions C16_error_names_exactly_missing.
 
 (* ---- status.tag ---- *)
+(* THE FULL STATEMENT, for the code as it is now: at every instant of every schedule (= at every
+   crash point) status.tag shows the last complete content published by a rename, and every single
+   step leaves it alone or replaces it by the complete content the renaming writer intended *)
+Theorem C16_status_tag_atomic : forall evt msgs chan tag0 ops sched,
+  let w := shared (prun repaired_code (start repaired_code (init_world evt msgs chan tag0) ops) sched) in
+  tag_content w = w_pub w.
+Proof. exact status_tag_atomic_repaired. Qed.
+Print Assumptions C16_status_tag_atomic.
+
+Theorem C16_status_tag_old_or_new : forall evt msgs chan tag0 ops sched t,
+  let c := prun repaired_code (start repaired_code (init_world evt msgs chan tag0) ops) sched in
+  let c' := sstep (handle repaired_code) c t in
+  tag_content (shared c') = tag_content (shared c) \/
+  tag_content (shared c') = Some (w_intent (shared c)).
+Proof. exact status_tag_old_or_new_repaired. Qed.
+Print Assumptions C16_status_tag_old_or_new.
+
+(* the lock the model assumes is there in the source (constant regenerated on every run) *)
+Theorem C16_writers_serialized_in_source :
+  Consts.provision_status_tag_writers_serialized = 1%N /\ v_lock repaired_code = true.
+Proof. exact writers_serialized_in_source. Qed.
+Print Assumptions C16_writers_serialized_in_source.
+
+(* serialized writers never overlap, whatever the client programs *)
+Theorem C16_writers_never_overlap : forall v evt msgs chan tag0 (ps : list pprog) sched,
+  v_lock v = true ->
+  w_overlap (shared (run (handle v) (init (init_world evt msgs chan tag0) ps) sched)) = false.
+Proof. exact lock_never_overlap. Qed.
+Print Assumptions C16_writers_never_overlap.
+
+(* -- documented lemmas about the variants without the lock (the tree before 3666d88) -- *)
 (* outside the overlapping-writers class: at every instant status.tag shows the last complete
    content published by a rename (initially: what was there before) *)
-Theorem C16_status_tag_atomic : forall v evt msgs chan tag0 ops sched,
+Theorem C16_status_tag_atomic_any_variant : forall v evt msgs chan tag0 ops sched,
   let w := shared (prun v (start v (init_world evt msgs chan tag0) ops) sched) in
   KnownClass_C16_overlapping_writers v (init_world evt msgs chan tag0) ops sched = false ->
   tag_content w = w_pub w.
 Proof. exact status_tag_atomic. Qed.
-Print Assumptions C16_status_tag_atomic.
+Print Assumptions C16_status_tag_atomic_any_variant.
 
 (* ... so every single step (hence every crash prefix) shows the old or the new complete content *)
-Theorem C16_status_tag_old_or_new : forall v evt msgs chan tag0 ops sched t,
+Theorem C16_status_tag_old_or_new_any_variant : forall v evt msgs chan tag0 ops sched t,
   let c := prun v (start v (init_world evt msgs chan tag0) ops) sched in
   let c' := sstep (handle v) c t in
   w_overlap (shared c') = false ->
   tag_content (shared c') = tag_content (shared c) \/
   tag_content (shared c') = Some (w_intent (shared c)).
 Proof. exact status_tag_old_or_new. Qed.
-Print Assumptions C16_status_tag_old_or_new.
+Print Assumptions C16_status_tag_old_or_new_any_variant.
 
-(* the unrestricted statement is false: two writers sharing status.tag.tmp (finding F11) *)
+(* without the lock the unrestricted statement is false: two writers sharing status.tag.tmp
+   (finding F11, fixed by 3666d88) *)
 Theorem C16_status_tag_atomic_refuted :
-  let c := prun current_code (start current_code world0 f11_ops) f11_sched in
-  KnownClass_C16_overlapping_writers current_code world0 f11_ops f11_sched = true /\
+  let c := prun original_code (start original_code world0 f11_ops) f11_sched in
+  KnownClass_C16_overlapping_writers original_code world0 f11_ops f11_sched = true /\
   tag_content (shared c) <> w_pub (shared c) /\
   (exists published, w_pub (shared c) = Some published /\
      exists mixed, tag_content (shared c) = Some mixed /\
@@ -102,48 +138,57 @@ Theorem C16_status_tag_atomic_refuted :
 Proof. exact shared_tmp_refuted. Qed.
 Print Assumptions C16_status_tag_atomic_refuted.
 
-(* ---- finished is truthful ---- *)
+(* the same schedule on the code as it is now: the second writer's open is refused *)
+Theorem C16_status_tag_refutation_repaired :
+  let c := prun repaired_code (start repaired_code world0 f11_ops) f11_sched in
+  w_overlap (shared c) = false /\ tag_content (shared c) = w_pub (shared c) /\
+  result_of c 1 = Some RDone /\ w_owner (shared c) = Some 0%nat.
+Proof. exact shared_tmp_repaired. Qed.
+Print Assumptions C16_status_tag_refutation_repaired.
+
+(* ---- finished is truthful: documented lemmas about the tree before e68ce38 / b4d0508 ---- *)
 (* the full statement [forall schedules and queries, truthful] is refuted by the faithful model of
-   the current code, in two ways *)
+   the original code, in two ways (findings F10 and F12, both fixed) *)
 Theorem C16_stale_finish_refuted :
-  let c := prun current_code (start current_code f10_world f10_ops) f10_sched in
+  let c := prun original_code (start original_code f10_world f10_ops) f10_sched in
   exists res, result_of c 4 = Some res /\
     match res with RQuery fin _ q _ fl la =>
       fin = true /\ la = false /\ 0 < q /\ fcontains fl F_K = false | RDone => False end /\
     ~ truthful (shared c) res /\
-    KnownClass_C16_stale_stamp current_code f10_world f10_ops f10_sched = true.
+    KnownClass_C16_stale_stamp original_code f10_world f10_ops f10_sched = true.
 Proof. exact stale_finish_refuted. Qed.
 Print Assumptions C16_stale_finish_refuted.
 
 Theorem C16_zero_tick_refuted :
-  let c := prun current_code (start current_code world0 f12_ops) f12_sched in
+  let c := prun original_code (start original_code world0 f12_ops) f12_sched in
   exists res, result_of c 0 = Some res /\
     match res with RQuery fin _ q tk fl la =>
       fin = true /\ la = false /\ q = 0 /\ tk = 0 /\ fl = 0%N | RDone => False end /\
     ~ truthful (shared c) res /\
-    KnownClass_C16_stale_stamp current_code world0 f12_ops f12_sched = false.
+    KnownClass_C16_stale_stamp original_code world0 f12_ops f12_sched = false.
 Proof. exact zero_tick_refuted. Qed.
 Print Assumptions C16_zero_tick_refuted.
 
-(* the strongest true statement about the current code: outside the two classes every answer is
+(* the strongest true statement about the original code: outside the two classes every answer is
    truthful, under every schedule *)
 Theorem C16_finished_truthful_partial : forall evt msgs chan tag0 ops sched t fin err q tk fl la,
   let w0 := init_world evt msgs chan tag0 in
-  let c := prun current_code (start current_code w0 ops) sched in
+  let c := prun original_code (start original_code w0 ops) sched in
   result_of c t = Some (RQuery fin err q tk fl la) ->
-  KnownClass_C16_stale_stamp current_code w0 ops sched = false ->
+  KnownClass_C16_stale_stamp original_code w0 ops sched = false ->
   KnownClass_C16_nonpositive_query_tick q = false ->
   truthful (shared c) (RQuery fin err q tk fl la).
 Proof. exact finished_truthful_partial. Qed.
 Print Assumptions C16_finished_truthful_partial.
 
-(* the full statement for the repaired code: tick stamped / zeroed inside the actor's
-   UpdateState / ResetState, zero tick never "finished" -- every schedule, every query tick *)
-Theorem C16_finished_truthful_atomic_tick : forall evt msgs chan tag0 ops sched t res,
+(* THE FULL STATEMENT, for the code as it is now: under every schedule, for every query tick (any
+   integer), a query answers finished only if the channel was latched or at some instant at or
+   after the instant it names all three subsystems were ready or the deadline handler stamped *)
+Theorem C16_finished_truthful : forall evt msgs chan tag0 ops sched t res,
   let c := prun repaired_code (start repaired_code (init_world evt msgs chan tag0) ops) sched in
   result_of c t = Some res -> truthful (shared c) res.
 Proof. exact finished_truthful_repaired. Qed.
-Print Assumptions C16_finished_truthful_atomic_tick.
+Print Assumptions C16_finished_truthful.
 
 (* each repair removes its class on its own *)
 Theorem C16_finished_truthful_each_repair : forall v evt msgs chan tag0 ops sched t fin err q tk fl la,
@@ -173,29 +218,35 @@ Theorem C16_polls_are_schedules : forall v w0 ops polls,
 Proof. exact polls_are_schedules. Qed.
 Print Assumptions C16_polls_are_schedules.
 
-(* ---- non-vacuity ---- *)
-(* all three report, then a query created afterwards is answered by a later key_latched refresh:
-   finished = true, truthfully, outside both classes *)
+(* ---- non-vacuity (code as it is now) ---- *)
+(* all three report, a query is created afterwards, a later key_latched refreshes the tick: the
+   query is answered finished = true, truthfully, with an empty error text *)
 Example C16_nonvacuous :
   let ops := [OpReport F_R; OpReport F_K; OpReport F_L; OpQuery QNow; OpReport F_K] in
-  let sched := [0; 1; 2; 2; 3; 4; 4; 3; 3; 3]%nat in
-  let c := prun current_code (start current_code world0 ops) sched in
-  KnownClass_C16_stale_stamp current_code world0 ops sched = false /\
+  let sched := [0; 1; 2; 3; 4; 3; 3; 3]%nat in
+  let c := prun repaired_code (start repaired_code world0 ops) sched in
   (exists q tk, result_of c 3 = Some (RQuery true [] q tk 7%N false) /\ 0 < q <= tk) /\
   w_flags (shared c) = F_ALL.
 Proof.
-  cbv zeta. split; [vm_compute; reflexivity|]. split; [|vm_compute; reflexivity].
+  cbv zeta. split; [|vm_compute; reflexivity].
   eexists _, _. split; [vm_compute; reflexivity|]. vm_compute. split; [reflexivity|discriminate].
 Qed.
 
-(* a deadline stamp makes a later-created query with an earlier tick finished, with the error text
-   naming all three subsystems *)
+(* a deadline stamp makes an earlier-created query finished, with the error text naming all three *)
 Example C16_nonvacuous_timeup :
   let ops := [OpQuery QNow; OpTimeup] in
   let sched := ([0; 1; 1] ++ repeat 0 9)%nat in
-  let c := prun current_code (start current_code world0 ops) sched in
+  let c := prun repaired_code (start repaired_code world0 ops) sched in
   exists err q tk, result_of c 0 = Some (RQuery true err q tk 0%N false) /\ err <> [] /\ 0 < q <= tk.
 Proof.
   cbv zeta. eexists _, _, _. split; [vm_compute; reflexivity|]. split; [discriminate|].
   vm_compute. split; [reflexivity|discriminate].
 Qed.
+
+(* a reset zeroes the tick: a query created before the reset but answered after it is not finished *)
+Example C16_nonvacuous_reset :
+  let ops := [OpReport F_R; OpReport F_K; OpReport F_L; OpQuery QNow; OpReset] in
+  let sched := [0; 1; 2; 3; 4; 3; 3; 3; 3; 3]%nat in
+  let c := prun repaired_code (start repaired_code world0 ops) sched in
+  exists err q, result_of c 3 = Some (RQuery false err q 0 5%N false) /\ err <> [].
+Proof. cbv zeta. eexists _, _. split; [vm_compute; reflexivity|discriminate]. Qed.
